@@ -36,12 +36,15 @@ PROPERTY = "C10"
 LEAN_TARGETS = ["Ipv8.C10.Props"]
 PROPS_FILE = "Ipv8/C10/Props.lean"
 DRIVER = "drv_c10"
+LEANCHECKER_MODULES = ["Ipv8.C10.Model", "Ipv8.C10.Lemmas", "Ipv8.C10.Source", "Ipv8.C10.AsyncTask"]
 RULE = ("a case = one scripted history run on the real RequestCache under the virtual clock; distinct = distinct "
         "(specs, script); non-trivial = at least one request was registered and at least one resolution "
         "(claim/timeout/clear/shutdown of an outstanding request) happened; families: random, lanes (exhaustive "
         "small scope), sequences (exhaustive small scope)")
 TRUSTED_BASE = [
-    "tools/gen_rc.py (constants and shape checks of find_unclaimed_identifier/_create_identifier/passthrough/add)",
+    "tools/gen_rc.py (constants, shape checks of find_unclaimed_identifier/_create_identifier, and the statement "
+    "sequences of RequestCache.add/pop/_on_timeout/clear/shutdown as primitive-op lists; meaning of the primitives: "
+    "lean/Ipv8/C10/Source.lean)",
     "hand-written model lean/Ipv8/C10/Model.lean, tied to the code by the trace-inclusion + digest + progress run",
     "asyncio semantics are enabledness rules R1-R4 of the model; they are validated against CPython by the same run "
     "(tools/vclock.py replaces only the clock, the loop/Task/Future machinery is the real one)",
@@ -49,7 +52,8 @@ TRUSTED_BASE = [
     "scripted bodies",
 ]
 ASSUMPTIONS = [
-    "a cache object is not re-registered from inside its own on_timeout (refused in the model; see design.d/C10.md)",
+    "asyncio enters the request-cache model as enabledness rules R1-R4; R1/R2 are additionally proved over a "
+    "transcription of asyncio.Task.cancel/__step (AsyncTask.lean); both are validated against CPython by the run",
     "on_timeout bodies and done-callbacks run synchronous RequestCache calls only; shutdown() is awaited from a task",
     "single event-loop thread (the threading.Lock in RequestCache is not modelled)",
 ]
@@ -141,6 +145,7 @@ class Run:
         self.in_fire: int | None = None
         self.swept = False
         self.body_runs: dict[int, int] = {}
+        self.waiters: list = []
         self._cm_last = None
         self.stats = {"added": 0, "claimed": 0, "timeout": 0, "dropped": 0, "keyerror": 0, "dup": 0, "inuse": 0,
                       "woken_cancel": 0, "same_instant_pop": 0, "body_ops": 0, "late_add_shutdown": 0}
@@ -151,7 +156,7 @@ class Run:
             for x in sp.get("cands") or []:
                 uni.add((sp["p"], x))
         for op in self._all_ops():
-            if op[0] in ("pop", "ret", "get"):
+            if op[0] in ("pop", "ret", "get", "wait"):
                 uni.add((op[1], op[2]))
         self.universe = sorted(uni)
 
@@ -407,6 +412,8 @@ class Run:
                     self.fail("RequestCache.add:failed-add-left-identifier",
                               f"add of request {k} raised RuntimeError at {t} ms but left identity {ident} in the table "
                               f"(no timeout task behind it)")
+                if self.in_fire == k:
+                    self.stats["self_readd:raised"] = self.stats.get("self_readd:raised", 0) + 1
                 self.emit(f"add {self.idx[k]}", "raised")
                 return
             if self.sd:
@@ -429,6 +436,20 @@ class Run:
             if r is o and not self.sd:
                 self.outstanding[ident] = k
                 self.deadline[k] = t + self.eff_delay(o)
+                base = round(o.timeout_delay * 1000)
+                cls_ = ("no-passthrough" if self._cm_last is None else
+                        "override-unfiltered" if self._cm_last[1] is None else
+                        "filter-hit" if self.deadline[k] - t == self._cm_last[0] and
+                        any(issubclass(type(o), classes()[CLS[f]]) for f in self._cm_last[1]) else "filter-miss")
+                self.stats["delay:" + cls_] = self.stats.get("delay:" + cls_, 0) + 1
+                if sp["delay"] is None:
+                    self.stats["delay:class-default"] = self.stats.get("delay:class-default", 0) + 1
+                if self.deadline[k] == t:
+                    self.stats["delay:zero-override"] = self.stats.get("delay:zero-override", 0) + 1
+                if self.in_fire == k:
+                    self.stats["self_readd:added"] = self.stats.get("self_readd:added", 0) + 1
+                elif self.in_fire is not None:
+                    self.stats["add_inside_on_timeout"] = self.stats.get("add_inside_on_timeout", 0) + 1
                 self.history.setdefault(k, []).append("added")
                 self.stats["added"] += 1
             self.emit(f"add {self.idx[k]}", reply)
@@ -443,11 +464,13 @@ class Run:
                     self.stats["woken_cancel"] += 1
                 if self.deadline.get(exp) == t:
                     self.stats["same_instant_pop"] += 1
+            form = op[3] if len(op) > 3 else "str"
+            self.stats["api:" + kind + ":" + form] = self.stats.get("api:" + kind + ":" + form, 0) + 1
             try:
                 if kind == "pop":
-                    o = self.rc.pop(PFX[p], n)
+                    o = self.rc.pop(self.named(p) if form == "cls" else PFX[p], n)
                 else:
-                    o = self.retrieve(p, n)
+                    o = self.retrieve(p, n, with_data=(form == "wd"))
                     if o is None:
                         raise KeyError
                 k = getattr(o, "_k", None)
@@ -472,8 +495,11 @@ class Run:
             return
         if kind == "get":
             p, n = op[1], op[2]
-            o = self.rc.get(PFX[p], n)
-            h = self.rc.has(PFX[p], n)
+            form = op[3] if len(op) > 3 else "str"
+            self.stats["api:get:" + form] = self.stats.get("api:get:" + form, 0) + 1
+            key = self.named(p) if form == "cls" else PFX[p]
+            o = self.rc.get(key, n)
+            h = self.rc.has(key, n)
             exp = self.outstanding.get((p, n))
             if (o is None) != (exp is None) or (o is not None and self.objs.get(exp) is not o) or h != (o is not None):
                 self.fail("RequestCache.get:wrong-result",
@@ -524,6 +550,17 @@ class Run:
                     f.cancel()
             self.emit(f"{kind} {self.idx[k]} {i}", "done")
             return
+        if kind == "wait":
+            # wait_for is outside C10 and outside the model (`resolveWaiter` is a no-op there): it is exercised so that
+            # waiters registered as anonymous tasks are present while everything else is compared; only counted
+            p, n, tmo = op[1], op[2], op[3]
+            try:
+                w = self.rc.wait_for(PFX[p], n, None if tmo is None else tmo / 1000.0)
+                self.waiters.append(w)
+                self.stats["wait_for"] = self.stats.get("wait_for", 0) + 1
+            except Exception as e:
+                self.loop_errors.append(f"wait_for raised {type(e).__name__}: {e}")
+            return
         if kind == "regfut":
             k, is_exc = op[1], op[2]
             if k not in self.objs:
@@ -546,10 +583,15 @@ class Run:
             return tm
         return base
 
-    def retrieve(self, p, n):
+    @staticmethod
+    def named(p):
+        """a cache class with a `name` attribute: the class form of has/get/pop and of retrieve_cache"""
+        return type("Named", (), {"name": PFX[p]})
+
+    def retrieve(self, p, n, with_data=False):
         from ipv8.lazy_community import retrieve_cache
         got = []
-        marker = type("Named", (), {"name": PFX[p]})
+        marker = self.named(p)
 
         class Overlay:
             request_cache = self.rc
@@ -558,7 +600,15 @@ class Run:
             @retrieve_cache(marker)
             def on_message(self_inner, peer, payload, cache):  # noqa: N805
                 got.append(cache)
-        Overlay().on_message(None, type("Payload", (), {"identifier": n})())
+
+            @retrieve_cache(marker)
+            def on_message_wd(self_inner, peer, payload, data, cache):  # noqa: N805
+                got.append(cache)
+        payload = type("Payload", (), {"identifier": n})()
+        if with_data:       # the `_wd` wrappers pass the raw data last: the identifier comes from payloads[-2]
+            Overlay().on_message_wd(None, payload, b"raw-data")
+        else:
+            Overlay().on_message(None, payload)
         return got[0] if got else None
 
     async def _sd(self):
@@ -642,6 +692,9 @@ class Run:
         self.pre()
         for tk in self.sd_tasks:
             await tk
+        for w in self.waiters:
+            key = "waiter:" + ("cancelled" if w.cancelled() else "resolved" if w.done() else "pending")
+            self.stats[key] = self.stats.get(key, 0) + 1
 
 
 # ---------------------------------------------------------------------------------------------------------
@@ -697,9 +750,9 @@ def gen_random(rng, size: int) -> dict:
         r = rng.random()
         p, n = rng.choice(idents)
         if r < 0.35:
-            return ["pop", p, n]
+            return ["pop", p, n, rng.choice(["str", "str", "cls"])]
         if r < 0.45:
-            return ["ret", p, n]
+            return ["ret", p, n, rng.choice(["str", "wd"])]
         if r < 0.65:
             k2 = len(specs) + 1000 + rng.randrange(10 ** 6)
             while k2 in specs:
@@ -738,11 +791,13 @@ def gen_random(rng, size: int) -> dict:
         elif r < 0.42:
             op = ["mk", k]
         elif r < 0.62:
-            op = ["pop", p, n]
+            op = ["pop", p, n, rng.choice(["str", "str", "cls"])]
         elif r < 0.67:
-            op = ["ret", p, n]
+            op = ["ret", p, n, rng.choice(["str", "wd"])]
+        elif r < 0.71:
+            op = ["get", p, n, rng.choice(["str", "cls"])]
         elif r < 0.73:
-            op = ["get", p, n]
+            op = ["wait", p, n, rng.choice([None, 125, 500, 2000])]
         elif r < 0.79:
             fs = rng.choice([None, None, [0], [1], [3], [1, 3], [5], [2]])
             op = ["enter", rng.choice([0, 0, 125, 250, 1000]), fs]
@@ -809,7 +864,6 @@ def lanes_case(n, same_ident, pops, glob, bodies, stagger=False) -> dict:
         # stagger: cache i expires 125 ms after cache i-1, so the lanes race the FIRST expiry while later ones are
         # still asleep (different timeout values)
         specs[i] = spec(ident[0], ident[1], d + (GRID * i if stagger else 0), 0, [i % 3], body)
-    items = []
     for i in range(n):
         ident = (0, 1) if same_ident else (0, i)
         if pops[i] is not None:
@@ -820,8 +874,13 @@ def lanes_case(n, same_ident, pops, glob, bodies, stagger=False) -> dict:
     # handles after them (via "later"); heapq is not FIFO among equal deadlines, both orders are simply observed
     adds = [[0, 0, ["mkadd", i]] for i in range(n)]
     items = script_pre + adds + script_post
+    meta = ["lanes:n=%d" % n, "lanes:identity=" + ("shared" if same_ident else "distinct")]
+    meta += ["lanes:pop@" + str(x) for x in pops] + ["lanes:body=" + str(b) for b in bodies]
+    meta.append("lanes:global=" + ("none" if glob is None else f"{glob[0]}@{glob[1]}"))
+    if stagger:
+        meta.append("lanes:staggered")
     return {"family": "lanes", "specs": {str(k): v for k, v in specs.items()}, "script": items, "end": 2500,
-            "tail": 3000, "keep_order": True}
+            "tail": 3000, "meta": meta}
 
 
 def lanes_space(n, full, stagger=False):
@@ -855,8 +914,10 @@ def seq_case(seq, at_deadline: bool, delays=(1000, 1000)) -> dict:
         script += [[0, 0, ["add", 0]], [delays[0], 1, ["seq", ops]]]
     else:
         script += [[0, 0, ["seq", ops]]]
+    meta = ["seq:len=%d" % len(seq), "seq:at=" + ("deadline" if at_deadline else "t0"),
+            "seq:delays=" + ("equal" if delays[0] == delays[1] else "unequal")]
     return {"family": "sequences", "specs": {str(k): v for k, v in specs.items()}, "script": script, "end": 3000,
-            "tail": 3000, "keep_order": True}
+            "tail": 3000, "meta": meta}
 
 
 def seq_space(maxlen):
@@ -874,6 +935,9 @@ def run_case(ctx: Ctx, case: dict, lines_out: list | None):
     key = repr((case["specs"], case["script"], case["end"]))
     ctx.case(key, nontrivial)
     ctx.count("family:" + case["family"])
+    for m in case.get("meta", []):
+        ctx.count(m)
+    ctx.count("identities:%d" % len({(sp.get("p"), sp.get("n")) for sp in r.specs.values()}))
     ctx.count("objects:%d" % min(len(r.order), 8))
     ctx.count("events:%s" % ("<10" if len(r.log) < 10 else "<25" if len(r.log) < 25 else "<60" if len(r.log) < 60 else ">=60"))
     for k, v in st.items():
@@ -882,7 +946,7 @@ def run_case(ctx: Ctx, case: dict, lines_out: list | None):
     for _, line, reply in r.log:
         ctx.count("ev:" + line.replace("~ ", "").split(" ")[0])
         rep = reply.split(" | ")[0].split(" ")[0]
-        if rep in ("raised", "assert", "dropped-shutdown", "aborted"):
+        if not rep.startswith("overdue"):
             ctx.count("reply:" + rep)
     for sig, what in r.failures:
         ctx.oracle_fail(sig, what, {"case": case})
